@@ -3,6 +3,7 @@ package c09
 import (
 	"encoding/json"
 	"fmt"
+	"runtime"
 	"sync"
 	"sync/atomic"
 	"testing"
@@ -346,3 +347,76 @@ func TestSharedQueue(t *testing.T) {
 		}
 	})
 }
+
+// Part "prealloc-storm": "at no instant are more than workerSizeMaximum jobs executing" - also when workers
+// are brought up from several sides at the same instant: 2-6 goroutines call PreAllocWorkerSize(max+3) together
+// (released by spinning on a flag) while the pool's own spawn loop is busy with freshly scheduled jobs. Then
+// max+4 gated jobs are scheduled: never more than max of them are inside at once, and all of them run.
+func TestPreAllocStorm(t *testing.T) {
+	if vlib.Replaying() {
+		t.Skip()
+	}
+	vlib.Check(t, "prealloc-storm", 150, 2000, func(t *rapid.T) {
+		max := rapid.IntRange(1, 3).Draw(t, "max")
+		callers := rapid.IntRange(2, 6).Draw(t, "callers")
+		desc := fmt.Sprintf("max=%d callers=%d", max, callers)
+		vlib.S().Eval("prealloc-storm")
+		vlib.S().NonTrivial("prealloc-storm", desc)
+		schedMu.Lock()
+		defer schedMu.Unlock()
+		q := fpgo.NewBufferedChannelQueue[func()](2, 100, 100).SetLoadFromPoolDuration(20 * time.Microsecond)
+		pool := worker.NewDefaultWorkerPool(q, nil).SetWorkerSizeMaximum(max).SetWorkerSizeStandBy(max).SetWorkerBatchSize(1).
+			SetSpawnWorkerDuration(20 * time.Microsecond).SetWorkerExpiryDuration(time.Hour).SetWorkerJamDuration(time.Hour)
+		defer pool.Close()
+		var inside, peak, ran int32
+		gate := make(chan struct{})
+		job := func() {
+			n := atomic.AddInt32(&inside, 1)
+			for {
+				p := atomic.LoadInt32(&peak)
+				if n <= p || atomic.CompareAndSwapInt32(&peak, p, n) {
+					break
+				}
+			}
+			<-gate
+			atomic.AddInt32(&inside, -1)
+			atomic.AddInt32(&ran, 1)
+		}
+		var release int32
+		var wg sync.WaitGroup
+		for i := 0; i < callers; i++ {
+			wg.Add(1)
+			go func() {
+				defer wg.Done()
+				for atomic.LoadInt32(&release) == 0 {
+					if fewProcsC09 {
+						runtime.Gosched()
+					}
+				}
+				pool.PreAllocWorkerSize(max + 3)
+			}()
+		}
+		jobs := max + 4
+		atomic.StoreInt32(&release, 1)
+		for i := 0; i < jobs; i++ {
+			if err := pool.Schedule(job); err != nil {
+				break
+			}
+		}
+		wg.Wait()
+		time.Sleep(300 * time.Microsecond)
+		close(gate)
+		ok := vlib.WaitUntil(vlib.StallBudget(), func() bool { return int(atomic.LoadInt32(&ran)) == jobs })
+		if p := atomic.LoadInt32(&peak); int(p) > max {
+			if vlib.Fail(t, "C09/too-many-workers", "%s: %d jobs were executing at the same time, workerSizeMaximum is %d (%d goroutines called PreAllocWorkerSize(%d) at the same instant)", desc, p, max, callers, max+3) {
+				t.Skip("known")
+			}
+			return
+		}
+		if !ok {
+			vlib.S().Class("prealloc-storm/slow")
+		}
+	})
+}
+
+var fewProcsC09 = runtime.GOMAXPROCS(0) <= 2
